@@ -736,6 +736,14 @@ func c15MissingKeyFields(keyFn *ssa.Function, vt *types.Named) []string {
 							walk(s.Val)
 						}
 					}
+				case ssa.CallInstruction:
+					// a local object filled through its methods (strings.Builder, bytes.Buffer): whatever is handed to a
+					// call that also gets the object may end up in it
+					for _, a := range r.Common().Args {
+						if a != ssa.Value(x) {
+							walk(a)
+						}
+					}
 				}
 			}
 			return
